@@ -130,6 +130,7 @@ def check(ctx):
                        "from_hdf5 function beyond the confirmed ones (float(complex) and int(float) drop information)", 1)
     ctx.rule("R14.12", "each stored key carries the attribute that the reader feeds back into the same attribute: writer `h5[K] = self.A`, "
                        "reader `Cls(P=h5[K])`, constructor `self.A = f(P)` name one and the same A", 12)
+    ctx.rule("R14.13", "a field is written whenever it is set: the guards of `h5[K] = self.A` mention no attribute other than A", 12)
     ctx.rule("R14.8", "equality of sequences of sub-objects compares lengths (no silent truncation by zip)", 2)
     ctx.rule("R14.2", "options: None values are dropped on save, so every Optional field must default to None "
                       "(or the reader must restore None)", 1)
@@ -226,6 +227,7 @@ def check(ctx):
     export_carries_data(ctx)
     reader_casts(ctx)
     key_attribute_agreement(ctx)
+    write_guards(ctx)
     options_none(ctx)
     mesh_restorable(ctx)
     getstate_slots(ctx)
@@ -646,3 +648,39 @@ def key_attribute_agreement(ctx):
                                "it is no longer the object that was written, and operators built on it are wrong")
     if n < 12:
         raise AnalysisError(f"writer/reader/constructor agreement found only {n} keys")
+
+
+# ---------------------------------------------------------------------------
+# R14.13 whether a field is written depends on that field only
+# ---------------------------------------------------------------------------
+
+def write_guards(ctx):
+    repo = ctx.repo
+    n = 0
+    for mod, cls, wname, rname in PAIRS:
+        C = repo.cls(mod, cls)
+        w = C.methods[wname]
+        pm = parent_map(w.node)
+        for st in own_nodes(w.node):
+            if not (isinstance(st, ast.Assign) and isinstance(st.targets[0], ast.Subscript) and isinstance(st.targets[0].slice, ast.Constant)
+                    and isinstance(st.targets[0].slice.value, str)):
+                continue
+            attrs = {x.attr for x in ast.walk(st.value) if isinstance(x, ast.Attribute) and isinstance(x.value, ast.Name) and x.value.id == "self"}
+            if len(attrs) != 1:
+                continue
+            a = next(iter(attrs))
+            n += 1
+            foreign = []
+            for g, br in guards_of(w.node, st, pm):
+                if isinstance(g, ast.If):
+                    others = {x.attr for x in ast.walk(g.test) if isinstance(x, ast.Attribute) and isinstance(x.value, ast.Name) and x.value.id == "self"} - {a}
+                    # flags of the writer itself (save_mesh=...) are parameters, not attributes: they are fine
+                    if others:
+                        foreign.append(f"{norm(g.test)} (mentions {sorted(others)})")
+            key = st.targets[0].slice.value
+            ctx.ob("R14.13", f"{cls}: key {key!r} (self.{a}) is written under guards on self.{a} only", not foreign, detail=foreign, where=w.fq,
+                   construct=f"{cls} key {key!r} written only when another attribute is set", loc=loc(w, st),
+                   message=f"{cls}.{wname} writes {key!r} (self.{a}) only under {foreign}: whether the field is saved depends on another field",
+                   consequence=f"a {cls} that has `{a}` set but not the other attribute loses `{a}` on save: the reloaded object differs from the saved one")
+    if n < 12:
+        raise AnalysisError(f"only {n} guarded key writes examined")
